@@ -172,8 +172,24 @@ impl Cfg {
             pre_allow: vec![],
         }
     }
+    /// An actor named "^X" is the same account as X spelled in upper case (bech32 allows both cases);
+    /// an actor named "token" is the token contract itself.
     pub fn addr(&self, i: u8) -> String {
-        mc::world::addr_cached(self.actors[i as usize])
+        let n = self.actors[i as usize];
+        match n.strip_prefix('^') {
+            Some(base) => mc::world::addr_cached(base).to_uppercase(),
+            None => mc::world::addr_cached(n),
+        }
+    }
+    /// index of the account an actor label denotes (differs from `i` only for "^X" aliases)
+    pub fn canon(&self, i: u8) -> u8 {
+        match self.actors[i as usize].strip_prefix('^') {
+            Some(base) => self.actors.iter().position(|a| *a == base).map(|p| p as u8).unwrap_or(i),
+            None => i,
+        }
+    }
+    pub fn is_alias(&self, i: u8) -> bool {
+        self.actors[i as usize].starts_with('^')
     }
 }
 
@@ -274,7 +290,9 @@ impl Cw20Model {
         let mut bal = BTreeMap::new();
         let mut addrs: BTreeSet<String> = accounts.iter().cloned().collect();
         for i in 0..cfg.actors.len() {
-            addrs.insert(cfg.addr(i as u8));
+            if !cfg.is_alias(i as u8) {
+                addrs.insert(cfg.addr(i as u8));
+            }
         }
         for a in addrs {
             let b: BalanceResponse = q(w, &QueryMsg::Balance { address: a.clone() })?;
@@ -286,9 +304,8 @@ impl Cw20Model {
             let n = cfg.actors.len() as u8;
             for o in 0..n {
                 for s in 0..n {
-                    if o == s {
-                        continue;
-                    }
+                    // the pair (X, X) is observed too: nobody can grant themselves an allowance, so it must read
+                    // (0, never) and appear in no listing
                     let a: AllowanceResponse = q(
                         w,
                         &QueryMsg::Allowance {
@@ -353,6 +370,9 @@ impl Cw20Model {
                 ));
             }
             for i in 0..cfg.actors.len() as u8 {
+                if cfg.is_alias(i) {
+                    continue;
+                }
                 let have = o.bal[&cfg.addr(i)];
                 let want = r.bal.get(&i).copied().unwrap_or(0);
                 if have != want {
@@ -503,9 +523,6 @@ impl Cw20Model {
         }
         for ow in 0..n {
             for sp in 0..n {
-                if ow == sp {
-                    continue;
-                }
                 let single = o.allow.get(&(ow, sp)).copied().unwrap_or((0, ExpKey::Never));
                 let a = by_owner.get(&(ow, sp)).copied();
                 let b = by_spender.get(&(ow, sp)).copied();
@@ -717,7 +734,7 @@ impl Model for Cw20Model {
         let mut dup = false;
         let mut total: Option<u128> = Some(0);
         for (i, a) in &cfg.initial {
-            if r.bal.insert(*i, *a).is_some() {
+            if r.bal.insert(cfg.canon(*i), *a).is_some() {
                 dup = true;
             }
             total = total.and_then(|t| t.checked_add(*a));
